@@ -14,13 +14,13 @@ INVS = ["none", "exact", "expanded"]
 
 
 def domain():
-    for qcd, qed, m, sv, pol, tl, shape, inv, emrun in itertools.product(
-            (1, 2, 3, 4), (0, 1, 2), METHODS, SVS, (False, True), (False, True), SHAPES, INVS, (False, True)):
+    for qcd, qed, m, sv, pol, tl, shape, inv, emrun, top in itertools.product(
+            (1, 2, 3, 4), (0, 1, 2), METHODS, SVS, (False, True), (False, True), SHAPES, INVS, (False, True), (False, True)):
         if qed == 0 and emrun:
             continue  # em_running without QED is C55's subject
         if shape != "down" and inv != "none":
             continue  # inversion method without a downward matching is C55's subject
-        yield dict(qcd=qcd, qed=qed, method=m, sv=sv, pol=pol, tl=tl, shape=shape, inv=inv, emrun=emrun)
+        yield dict(qcd=qcd, qed=qed, method=m, sv=sv, pol=pol, tl=tl, shape=shape, inv=inv, emrun=emrun, top=top)
 
 
 def cards(cfg, seed=0, iterations=2, max_order=(3, 0), xif=None, n3lo=(0,) * 7, fhmruvv=True):
@@ -41,17 +41,23 @@ def cards(cfg, seed=0, iterations=2, max_order=(3, 0), xif=None, n3lo=(0,) * 7, 
     th["n3lo_ad_variation"] = tuple(n3lo)
     th["use_fhmruvv"] = fhmruvv
     mb = 4.92 * th["heavy"]["matching_ratios"][1]
-    # half of the cards start below the tau mass (1.777 GeV), so that an nf=4 segment crosses it
-    lo = rng.choice([1.6, 2.2])
+    # the flavour window is drawn from the seed: single patch nf 3..6, one crossing 3-4, 4-5 or 5-6;
+    # in the nf = 4 patch half of the cards start below the tau mass (1.777 GeV)
+    mus = {3: 1.25, 4: rng.choice([1.6, 2.2]), 5: mb * 1.4, 6: 300.0}
+    hi = {3: 1.45, 4: 3.9, 5: 60.0, 6: 500.0}
+    th["heavy"]["matching_ratios"][0] = 1.0
     if cfg["shape"] == "single":
-        op["init"] = (lo, 4)
-        op["mugrid"] = [(3.9, 4)]
-    elif cfg["shape"] == "up":
-        op["init"] = (lo + 0.8, 4) if lo > 2 else (lo, 4)
-        op["mugrid"] = [(mb * 1.4, 5)]
+        nf = 6 if cfg.get("top") else rng.choice([3, 4, 4, 5])
+        op["init"] = (mus[nf], nf)
+        op["mugrid"] = [(hi[nf], nf)]
     else:
-        op["init"] = (mb * 1.4, 5)
-        op["mugrid"] = [(3.0 if lo > 2 else lo, 4)]
+        lo_nf = 5 if cfg.get("top") else rng.choice([3, 4, 4])
+        a = (mus[lo_nf] if lo_nf != 4 else rng.choice([1.6, 3.0]), lo_nf)
+        b = (hi[lo_nf + 1] if lo_nf + 1 != 5 else mb * 1.4, lo_nf + 1)
+        if cfg["shape"] == "up":
+            op["init"], op["mugrid"] = a, [b]
+        else:
+            op["init"], op["mugrid"] = b, [a]
     op["xgrid"] = [0.2, 1.0]
     c = op["configs"]
     c["evolution_method"] = cfg["method"]
